@@ -104,16 +104,18 @@ def insert_junk(rng, secs, long_ok=True):
         s["body"] = list(s["body"])
     kinds = []
     bad = 0
-    for _ in range(rng.choice([1, 1, 1, 2, 3])):
-        i = rng.choice(sites)
+    many = rng.random() < 0.04
+    one_site = rng.choice(sites)
+    for _ in range(rng.choice([1, 1, 1, 2, 3]) if not many else rng.randint(21, 30)):
+        i = rng.choice(sites) if not many else one_site      # (`many`: more junk lines in ONE section than any give-up limit)
         for _try in range(50):
-            junk, kind = gen_junk(rng, long_ok)
+            junk, kind = gen_junk(rng, long_ok and not many)
             ok, name = admissible(junk, out[i]["title"])
-            if ok:
+            if ok and not (many and name is not None):       # (`many`: unparsable lines only, the ones that are skipped)
                 break
         else:
             continue
-        out[i]["body"].insert(rng.randint(0, len(out[i]["body"])), (junk, "junk", None))
+        out[i]["body"].insert(rng.randint(0, len(out[i]["body"])) if not many else 0, (junk, "junk", None))
         kinds.append(kind)
         bad += name is None
     return out, kinds, bad
